@@ -91,6 +91,10 @@ class LoopMixin:
             if cur is None:
                 continue
             ty = types.get(name) or self.type_of_value(cur)
+            if ty is None and isinstance(cur, VRef) and cur.kind in ("list", "dict", "set") and not run.rec(cur.oid).concrete:
+                # a local alias of a symbolic container (e.g. `alerts = self.state.recent_alerts`): its element types are the record's
+                rc_ = run.rec(cur.oid)
+                ty = ("list", rc_.elem) if cur.kind == "list" else (("set", rc_.etype) if cur.kind == "set" else ("dict", rc_.ktype, rc_.vtype))
             if ty is None:
                 if isinstance(cur, VRef) and cur.kind in ("list", "dict", "set"):
                     raise E.Unsupported(f"loop {header!r}: need a type for havocked container {name!r}")
